@@ -16,6 +16,7 @@ def build_jp():
 def run(prop, tier, seed, work, ev):
     tlc_ok("mc/MC_Cli.tla", "MC_Cli.cfg", work, ev=ev, label="jp step machine: exit/stdout/stderr discipline, --ast never reads input, -u only affects strings")
     tlc_must_fail("mc/MC_Cli.tla", "MC_Cli_neg.cfg", work, invariant="Inv_Discipline", ev=ev)
+    tlc_must_fail("mc/MC_Cli.tla", "MC_Cli_neg_textonly.cfg", work, invariant="Inv_Outcome", ev=ev)
     drv = build_driver()
     jp = build_jp()
     ev.exhaustive = True
